@@ -173,6 +173,17 @@ func (e *Engine) invoke(st *state, fr *frame, in ssa.CallInstruction, recv *Val,
 			}
 		}
 	}
+	// a method called on a value of a type parameter that this frame's instantiation binds to a concrete type
+	// (`var o O; o.byteOrder()` inside readPrefix[littleEndian, T]): that type's method
+	if tp, ok := c.Value.Type().(*types.TypeParam); ok {
+		if ct := fr.substT(tp); ct != nil && ct != types.Type(tp) {
+			if _, still := ct.(*types.TypeParam); !still && !types.IsInterface(ct) {
+				if m := e.P.Prog.LookupMethod(ct, c.Method.Pkg(), name); m != nil && m.Blocks != nil {
+					return e.callFunc(st, fr, in, m, append([]*Val{recv}, args...), nil)
+				}
+			}
+		}
+	}
 	// a ByteOrder handed in as a parameter (helper analysed on its own): same effects, the order stays symbolic
 	if it := types.TypeString(c.Value.Type(), nil); it == "encoding/binary.ByteOrder" || it == "encoding/binary.AppendByteOrder" {
 		if strings.HasPrefix(name, "PutUint") && len(args) == 2 {
